@@ -215,7 +215,7 @@ def shape_to_tree(shape, naming='plain', level_names=None):
         if naming == 'plain':
             return f'{px}{idx:02d}'
         # scrambled: reverse-ish order so sorted(names) != structural order
-        return f'{px}{(idx * 7 + 3) % 97:02d}'
+        return f"{px}{(idx * 37 + 3) % 97:02d}"
 
     def build(li, node_shape):
         # node_shape = (k, subtree) ; subtree is () for a leaf else a forest
